@@ -158,6 +158,10 @@ def cells_of(v):
 def h_complete(ctx, skeleton, n=2, args=None, only=None):
     spec = M.SKELETONS[skeleton](n, **(args or {}))
     sym = all_input_syms(spec)
+    for coll in ("servers", "storages"):
+        for nm, o in spec.get(coll, {}).items():
+            if o.get("fixed_nb_of_instances") is not None:
+                sym[f"{nm}.fixed_nb_of_instances"] = dict(lo=0, lo_strict=True, hi=10 ** 6, nice=(20, 80))
     if only:
         sym = {k: v for k, v in sym.items() if k.split(".")[0] in only and "duration" not in k}
     env = M.Env(ctx, symbolic=sym)
@@ -320,6 +324,8 @@ L = lambda o, a, t: dict(k="link", obj=o, attr=a, target=t)  # noqa
 def plan(tier, seed):
     p = [("complete", dict(skeleton="T1"), dict(max_paths=400, max_seconds=220)),
          ("complete", dict(skeleton="T5", args={"type1": "on-premise", "type2": "serverless"}, only=["srv", "srv2", "job", "job2", "up"]),
+          dict(max_paths=300, max_seconds=220)),
+         ("complete", dict(skeleton="T5", args={"type1": "on-premise", "type2": "autoscaling", "fixed1": 40}, only=["srv", "srv2", "job", "job2", "up"]),
           dict(max_paths=300, max_seconds=220)),
          ("mock_dags", dict(nodes=3)), ("mock_dags", dict(nodes=4)), ("mock_dags", dict(nodes=5))]
     for sk in ("T1", "T5", "T7", "T9"):
